@@ -6,7 +6,8 @@ import numpy as np
 import pykoop
 from .. import core, pipes, structural as st
 
-THEOREMS = ['Pk.C07.C07_ic', 'Pk.C07.C07_rows', 'Pk.C07.C07_step', 'Pk.C07.C07_inputs', 'Pk.C07.C07_norelift_step', 'Pk.C07.C07_norelift_shapes', 'Pk.C07.C07_norelift_inputs',
+THEOREMS = ['Pk.C07.C07_divergence_rows', 'Pk.C07.C07_divergence_prefix', 'Pk.C07.C07_divergence_pattern',
+            'Pk.C07.C07_divergence_local', 'Pk.C07.trajRelift_eq_loopT', 'Pk.C07.C07_ic', 'Pk.C07.C07_rows', 'Pk.C07.C07_step', 'Pk.C07.C07_inputs', 'Pk.C07.C07_norelift_step', 'Pk.C07.C07_norelift_shapes', 'Pk.C07.C07_norelift_inputs',
             'Pk.C07.C07_episodes', 'Pk.C07.C07_predict_def', 'Pk.step_eq_predict', 'Pk.trajRelift_row']
 ALG = ['poly', 'bilinear', 'const', 'delay', 'delay']
 
@@ -116,6 +117,10 @@ def _oracle(c, rng):
         Xp = kp.predict_trajectory(X0, U, relift_state=True, return_input=True, episode_feature=c['call'])
     except Exception as ex:
         return f'predict_trajectory raised {type(ex).__name__}: {ex}', tags
+    if not np.all(np.isfinite(Xp)):
+        # the prediction left the floating-point range (polynomial liftings grow doubly exponentially): the divergence
+        # branch, which the divergence probes and the scripted-divergence correspondence cover, not this oracle
+        return None, None
     A = np.array(c['rows_lab'], dtype=float)
     Xfull = A if e else A[:, 1:]
     eps_in = st.episodes(Xfull, e)
@@ -137,7 +142,8 @@ def _oracle(c, rng):
             one = kp.predict(Wm)
             one = one[-1, (1 if fe else 0):]
             if not np.allclose(one, P[k, :nx], rtol=1e-7, atol=1e-9):
-                return f'episode {l}: predicted state {k} is not the one-step prediction from states {k - m}..{k - 1}', tags
+                return (f'episode {l}: predicted state {k} is not the one-step prediction from states {k - m}..{k - 1} '
+                        f'(difference {np.max(np.abs(one - P[k, :nx])):.3g}, magnitude {np.max(np.abs(P[k, :nx])):.3g})'), tags
         # independence of the other episodes
         alone = st.ref_combine([(l, Xe)], e)
         Pa = kp.predict_trajectory(alone, None, relift_state=True, return_input=True, episode_feature=c['call'])
@@ -150,6 +156,8 @@ def _oracle(c, rng):
     except Exception as ex:
         return f'predict_trajectory(relift_state=False) raised {type(ex).__name__}: {ex}', tags
     pth = kp.n_states_out_
+    if not np.all(np.isfinite(L)):
+        return None, None
     for l, Le in st.episodes(L, e).items():
         Th, Up = Le[:, :pth], Le[:, pth:]
         for k in range(Le.shape[0] - 1):
@@ -210,6 +218,8 @@ def _oracle(c, rng):
         else:
             kp.regressor_.coef_ = K2.T.copy()
         P2 = kp.predict_trajectory(X0, U, relift_state=True, return_input=True, episode_feature=c['call'])
+        if not np.all(np.isfinite(P2)):
+            return None, None
         eps_2 = st.episodes(P2, e)
         for l, Xe in eps_in.items():
             P = eps_2[l]
@@ -288,6 +298,106 @@ def divergence_probe(rng, relift):
     return None, case, tag
 
 
+MARK = 0.42424242424242      # an ordinary magnitude (the marked sample takes part in the prediction like any other)
+
+
+def scripted_divergence_case(rng):
+    """a call in which chosen episodes DIVERGE at a chosen loop iteration (scripted: `lift_input` of a marked window
+    returns a non-finite row, so the next retraction raises a ValueError with a non-finite intermediate - the situation
+    the divergence handler of predict_trajectory is written for); returns the observation and the model request"""
+    import logging
+    import warnings
+    rs = np.random.RandomState(rng.randint(0, 2 ** 31 - 1))
+    nx, nu = rng.randint(1, 2), rng.randint(1, 2)
+    d = rng.choice([0, 1, 2])
+    lfs = ([('pl', pykoop.PolynomialLiftingFn(order=2))] if rng.random() < 0.5 else []) \
+        + ([('dl', pykoop.DelayLiftingFn(d, d))] if d else [])
+    fit_blocks = [(l, rs.uniform(-1, 1, (8, nx + nu))) for l in (0, 1)]
+    kp0 = pykoop.KoopmanPipeline(lifting_functions=lfs or None, regressor=pykoop.DataRegressor(coef=np.zeros((1, 1))))
+    probe = pykoop.KoopmanPipeline(lifting_functions=lfs or None, regressor=pykoop.Edmd(alpha=1.0))
+    probe.fit(st.ref_combine(fit_blocks, True), n_inputs=nu, episode_feature=True)
+    pth, pup = probe.n_states_out_, probe.n_inputs_out_
+    K = rs.uniform(0.1, 0.4, (pth, pth + pup)) / (pth + pup)
+    kp = pykoop.KoopmanPipeline(lifting_functions=lfs or None, regressor=pykoop.DataRegressor(coef=K.T))
+    kp.fit(st.ref_combine(fit_blocks, True), n_inputs=nu, episode_feature=True)
+    m = kp.min_samples_
+    relift = rng.random() < 0.5
+    lifted = rng.random() < 0.5
+    labels = sorted(rng.sample(range(0, 9), rng.randint(1, 3)))
+    eps, marks = [], {}
+    for l in labels:
+        n = rng.randint(m + 3, m + 7)
+        E = rs.uniform(-0.5, 0.5, (n, nx + nu))
+        if rng.random() < 0.6:
+            r = rng.randint(m - 1, n - 2)
+            E[r, -1] = MARK
+            marks[l] = r
+        eps.append((l, E))
+    X = st.ref_combine(eps, True)
+    clean = kp.predict_trajectory(X, relift_state=relift, return_lifted=lifted)
+    orig = kp.lift_input
+
+    def poisoned(Xw, episode_feature=None):
+        out = orig(Xw, episode_feature=episode_feature)
+        if np.asarray(Xw)[-1, -1] == MARK:
+            out = np.array(out, dtype=float)
+            out[-1, :] = np.inf
+        return out
+    kp.lift_input = poisoned
+    lvl = logging.root.manager.disable
+    logging.disable(logging.CRITICAL)
+    try:
+        with warnings.catch_warnings():
+            warnings.simplefilter('ignore')
+            try:
+                got = ('ok', kp.predict_trajectory(X, relift_state=relift, return_lifted=lifted))
+            except Exception as ex:
+                got = ('err', f'{type(ex).__name__}: {ex}')
+    finally:
+        logging.disable(lvl)
+        del kp.lift_input
+    parts = []
+    for l, E in eps:
+        n = E.shape[0]
+        k = None if l not in marks else (marks[l] + 1 if relift else marks[l] - m + 2)
+        parts.append(f"{n} {m} {'n' if k is None else k}")
+    line = f"divpat {len(eps)} " + ' '.join(parts)
+    case = {'nx': nx, 'nu': nu, 'delay': d, 'poly': len(lfs) - (1 if d else 0), 'relift': relift, 'lifted': lifted, 'min_samples': m,
+            'labels': labels, 'marked_rows': {str(k): v for k, v in marks.items()}, 'X': X.tolist(), 'K': K.tolist()}
+    return line, case, got, clean, eps, marks
+
+
+def scripted_divergence_compare(case, got, clean, eps, marks, reply):
+    """model: crash index and NaN pattern per episode; plus the prefix / locality clauses against the un-scripted run"""
+    if got[0] != 'ok':
+        return 'mismatch', f'predict_trajectory raised {got[1]} (model: NaN rows from the crash index on, every episode returned)'
+    out = got[1]
+    t = reply.split()
+    if t[0] != 'ok' or len(t) != 1 + 3 * len(eps):
+        return 'mismatch', 'model reply ' + reply[:60]
+    for j, (l, E) in enumerate(eps):
+        c, patX, patL = int(t[1 + 3 * j]), t[2 + 3 * j], t[3 + 3 * j]
+        rows = out[out[:, 0] == l][:, 1:]
+        ref = clean[clean[:, 0] == l][:, 1:]
+        want = patL if case['lifted'] else patX
+        if rows.shape[0] != len(want):
+            return 'mismatch', f'episode {l}: {rows.shape[0]} rows returned, model {len(want)}'
+        nan_rows = ''.join('1' if np.all(np.isnan(r)) else ('0' if np.all(np.isfinite(r)) else '?') for r in rows)
+        if nan_rows != want:
+            return 'mismatch', (f'episode {l} (diverging at marked row {marks.get(l)}): NaN rows {nan_rows}, model {want} '
+                                f'(crash index {c})')
+        keep = [i for i, ch in enumerate(want) if ch == '0']
+        if l in marks and case['lifted'] and case['relift']:
+            # with re-lifting the lifted rows are re-computed from the states AFTER the rows from the crash index on were
+            # cleared: a lifted row whose delay window reaches the crash index is not a prediction (and not claimed to be)
+            keep = [i for i in keep if i + case['min_samples'] - 1 < c]
+        if not np.array_equal(rows[keep], ref[keep]):
+            return 'fail', (f'episode {l}: rows reported before the crash index differ from the prediction that does not diverge'
+                            if l in marks else
+                            f'episode {l} does not diverge, but its prediction changes when another episode of the call diverges')
+    return None, None
+
+
 def frame_probe(rng):
     """a pipeline fitted on a pandas DataFrame (named columns) is a fitted pipeline like any other: predict / score on the
     same frame and predict / predict_trajectory on the plain array must work and give what a twin fitted on the plain
@@ -358,7 +468,8 @@ def run(ctx):
                 'DataRegressor holding a small integer Koopman matrix, tagged integer data in {-1,0,1,2}; fitted '
                 'with/without episode feature; call flag None/True/False; both call forms; relift on/off; all '
                 'return_lifted x return_input shapes; cases whose values leave the exactly representable range are '
-                'rejected; a malformed stream (wrong IC length, short inputs) compares error behaviour')
+                'rejected; a malformed stream (wrong IC length, short inputs) compares error behaviour; scripted divergence '
+                '(chosen episodes diverge at a chosen loop iteration): NaN pattern, row counts, prefix and locality vs the loop skeleton')
     ctx.explanation = ('theorems C07_* about the executable model of predict / predict_trajectory; correspondence: '
                        'the whole output matrix of predict_trajectory and predict compared exactly with the model; '
                        'oracle: iterated predict() vs predict_trajectory on float data with contractive Koopman '
@@ -476,6 +587,16 @@ def run(ctx):
             if w:
                 ctx.fail(w, fc, tags)
 
+    sd = [scripted_divergence_case(ctx.rng) for _ in range(ctx.n(30, 400))]
+    for (line, case, got, clean, eps, marks), rep in zip(sd, drv.ask([x[0] for x in sd])):
+        ctx.count('scripted divergence:' + ('relift' if case['relift'] else 'no-relift') + ('/lifted' if case['lifted'] else ''))
+        ctx.count(f"scripted divergence:{len(marks)} of {len(eps)} episodes diverge")
+        ctx.record_case({k: v for k, v in case.items() if k not in ('X', 'K')}, True)
+        kind, why = scripted_divergence_compare(case, got, clean, eps, marks, rep)
+        if kind == 'mismatch':
+            ctx.mismatch('divergence bookkeeping: ' + why, case, None, rep[:80])
+        elif kind == 'fail':
+            ctx.fail(why, case, {'probe': 'scripted-divergence', 'relift': case['relift']})
     for _ in range(ctx.n(6, 60)):
         w, case, tags = frame_probe(ctx.rng)
         ctx.count('frame probe')
